@@ -51,8 +51,13 @@ structure Defects where
   emptyKeyPanics : Bool
 deriving Repr, DecidableEq
 
-def Defects.asImplemented : Defects := { jsonNullPanics := true, emptyKeyPanics := true }
+/-- What /repo does. Both deviations were confirmed on the real code by this check (corpus/C14) and fixed in
+    /repo (e10cc1c `jsonNullPanics`, 8e31124 `emptyKeyPanics`); the switches stay so that the witnesses
+    `C14_breaks_*` and the regression replays describe what a revert brings back. -/
+def Defects.asImplemented : Defects := { jsonNullPanics := false, emptyKeyPanics := false }
 def Defects.none : Defects := { jsonNullPanics := false, emptyKeyPanics := false }
+/-- the code before the two fixes -/
+def Defects.beforeFixes : Defects := { jsonNullPanics := true, emptyKeyPanics := true }
 
 /-- `Variables::validate_params` for the `VariableType` of the field (`Field::get_variable_type`:
     `String` and `Json` fields are both `VariableType::String`) -/
